@@ -19,7 +19,8 @@
 // (marker and decoy stay alive, so a fresh default Arc can never alias them).
 //
 // Input layout: none. The scenarios are concrete (names "x" / "y"); the harness name identifies
-// the kind, so a FAILED verdict needs no counterexample values ("cex": {}).
+// the kind, so a FAILED verdict needs no counterexample values ("cex": {}); only the trailing
+// `_marker: u8` of cex_marker() is drawn.
 
 use super::*;
 use std::ptr::addr_of;
@@ -88,6 +89,16 @@ fn stub_get(_this: &DescriptorManager, key: DescriptorKey) -> Option<Descriptor>
         }
     }
     None
+}
+
+/// Drawn after the last kani::cover! and immediately before the assertions of a harness. Concrete
+/// playback extracts the kani::any() values of the trace *up to* the property, and Kani drops a
+/// playback test that is identical to the one printed just before it; this extra byte makes the
+/// value list of every harness assertion differ from that of every cover, so the counterexample
+/// of a failed assertion is always printed. (Layout: trailing `_marker: u8` in run_kani.py.)
+fn cex_marker() {
+    let m: u8 = kani::any();
+    kani::assume(m == 0xA5);
 }
 
 fn addr<T: ?Sized>(a: &Arc<T>) -> *const () {
@@ -165,6 +176,7 @@ fn k4_unary() {
     kani::cover!(both_slots_used(), "k4_two_keys_stored");
     let got = m.get_unary_descriptor(name_of(n));
     kani::cover!(unsafe { GET_CALLS } == 1, "k4_lookup_reached_store");
+    cex_marker();
     assert!(addr(&got) == addr(&marker), "k4_unary: get_unary_descriptor(name) returns the descriptor registered by set_unary_descriptor(name)");
     assert!(addr(&m.get_unary_descriptor(name_of(o))) != addr(&marker), "k4_unary: a different name does not see the registration");
     assert!(addr(&m.get_binary_descriptor(name_of(n))) != addr(&marker), "k4_unary: binary lookup does not see a unary registration");
@@ -188,6 +200,7 @@ fn k4_binary() {
     kani::cover!(both_slots_used(), "k4_two_keys_stored");
     let got = m.get_binary_descriptor(name_of(n));
     kani::cover!(unsafe { GET_CALLS } == 1, "k4_lookup_reached_store");
+    cex_marker();
     assert!(addr(&got) == addr(&marker), "k4_binary: get_binary_descriptor(name) returns the descriptor registered by set_binary_descriptor(name)");
     assert!(addr(&m.get_binary_descriptor(name_of(o))) != addr(&marker), "k4_binary: a different name does not see the registration");
     assert!(addr(&m.get_unary_descriptor(name_of(n))) != addr(&marker), "k4_binary: unary lookup does not see a binary registration");
@@ -211,6 +224,7 @@ fn k4_postfix() {
     kani::cover!(both_slots_used(), "k4_two_keys_stored");
     let got = m.get_postfix_descriptor(name_of(n));
     kani::cover!(unsafe { GET_CALLS } == 1, "k4_lookup_reached_store");
+    cex_marker();
     assert!(addr(&got) == addr(&marker), "k4_postfix: get_postfix_descriptor(name) returns the descriptor registered by set_postfix_descriptor(name)");
     assert!(addr(&m.get_postfix_descriptor(name_of(o))) != addr(&marker), "k4_postfix: a different name does not see the registration");
     assert!(addr(&m.get_unary_descriptor(name_of(n))) != addr(&marker), "k4_postfix: unary lookup does not see a postfix registration");
@@ -234,6 +248,7 @@ fn k4_function() {
     kani::cover!(both_slots_used(), "k4_two_keys_stored");
     let got = m.get_function_descriptor(name_of(n));
     kani::cover!(unsafe { GET_CALLS } == 1, "k4_lookup_reached_store");
+    cex_marker();
     assert!(addr(&got) == addr(&marker), "k4_function: get_function_descriptor(name) returns the descriptor registered by set_function_descriptor(name)");
     assert!(addr(&m.get_function_descriptor(name_of(o))) != addr(&marker), "k4_function: a different name does not see the registration");
     assert!(addr(&m.get_unary_descriptor(name_of(n))) != addr(&marker), "k4_function: unary lookup does not see a function registration");
@@ -257,6 +272,7 @@ fn k4_reference() {
     kani::cover!(both_slots_used(), "k4_two_keys_stored");
     let got = m.get_reference_descriptor(name_of(n));
     kani::cover!(unsafe { GET_CALLS } == 1, "k4_lookup_reached_store");
+    cex_marker();
     assert!(addr(&got) == addr(&marker), "k4_reference: get_reference_descriptor(name) returns the descriptor registered by set_reference_descriptor(name)");
     assert!(addr(&m.get_reference_descriptor(name_of(o))) != addr(&marker), "k4_reference: a different name does not see the registration");
     assert!(addr(&m.get_unary_descriptor(name_of(n))) != addr(&marker), "k4_reference: unary lookup does not see a reference registration");
@@ -283,6 +299,7 @@ fn k4_ternary() {
     kani::cover!(both_slots_used(), "k4_two_keys_stored");
     let got = m.get_ternary_descriptor();
     kani::cover!(unsafe { GET_CALLS } == 1, "k4_lookup_reached_store");
+    cex_marker();
     assert!(addr(&got) == addr(&marker), "k4_ternary: get_ternary_descriptor() returns the descriptor registered by set_ternary_descriptor()");
     assert!(addr(&m.get_list_descriptor()) != addr(&marker), "k4_ternary: list lookup does not see a ternary registration");
     assert!(addr(&m.get_map_descriptor()) != addr(&marker), "k4_ternary: map lookup does not see a ternary registration");
@@ -303,6 +320,7 @@ fn k4_list() {
     kani::cover!(both_slots_used(), "k4_two_keys_stored");
     let got = m.get_list_descriptor();
     kani::cover!(unsafe { GET_CALLS } == 1, "k4_lookup_reached_store");
+    cex_marker();
     assert!(addr(&got) == addr(&marker), "k4_list: get_list_descriptor() returns the descriptor registered by set_list_descriptor()");
     assert!(addr(&m.get_ternary_descriptor()) != addr(&marker), "k4_list: ternary lookup does not see a list registration");
     assert!(addr(&m.get_map_descriptor()) != addr(&marker), "k4_list: map lookup does not see a list registration");
@@ -323,6 +341,7 @@ fn k4_map() {
     kani::cover!(both_slots_used(), "k4_two_keys_stored");
     let got = m.get_map_descriptor();
     kani::cover!(unsafe { GET_CALLS } == 1, "k4_lookup_reached_store");
+    cex_marker();
     assert!(addr(&got) == addr(&marker), "k4_map: get_map_descriptor() returns the descriptor registered by set_map_descriptor()");
     assert!(addr(&m.get_ternary_descriptor()) != addr(&marker), "k4_map: ternary lookup does not see a map registration");
     assert!(addr(&m.get_list_descriptor()) != addr(&marker), "k4_map: list lookup does not see a map registration");
@@ -343,6 +362,7 @@ fn k4_chain() {
     kani::cover!(both_slots_used(), "k4_two_keys_stored");
     let got = m.get_chain_descriptor();
     kani::cover!(unsafe { GET_CALLS } == 1, "k4_lookup_reached_store");
+    cex_marker();
     assert!(addr(&got) == addr(&marker), "k4_chain: get_chain_descriptor() returns the descriptor registered by set_chain_descriptor()");
     assert!(addr(&m.get_ternary_descriptor()) != addr(&marker), "k4_chain: ternary lookup does not see a chain registration");
     assert!(addr(&m.get_list_descriptor()) != addr(&marker), "k4_chain: list lookup does not see a chain registration");
